@@ -192,6 +192,9 @@ def Lay.removeLast (l : Lay) : Lay :=
 
 structure ConvAnswer where
   engine : Nat
+  /-- fingerprint of the user dictionary at the time of the call (one step can convert the same composition
+      twice with a learning in between) -/
+  fp : Nat
   comp : String              -- canonical composition text
   paths : List (List Interval)
 
@@ -248,9 +251,10 @@ def compS (c : Composition) : String :=
 
 def convAnswerP : P ConvAnswer := do
   let engine ← num
+  let fp ← num
   let comp ← compP
   let paths ← listOf (listOf ivP)
-  return { engine, comp := compS comp, paths }
+  return { engine, fp, comp := compS comp, paths }
 
 def engineNo : EngineKind → Nat
   | .simple => 0
@@ -274,6 +278,11 @@ def edEstimate (_time freq maxFreq : Nat) : Outcome Nat :=
     if freq + delta ≥ 2 ^ 32 then .panic "estimate-add-overflow"
     else .ok (min (freq + delta) 99999999)
 
+/-- entries, tombstones, sum of frequencies and times of the user dictionary: what the harness records with every
+    conversion call (`user_fingerprint` in harness/src/bin/editor/main.rs) -/
+def dictFp (d : MemDict) : Nat :=
+  d.btree.length * 1000003 + d.grave.length * 10007 + d.btree.foldl (fun a e => a + e.freq + e.time) 0
+
 def mkEnv (answers : List ConvAnswer) : Env MemDict Lay where
   lookupAll d key _ := d.lookup key
   userLookupAll d key _ := d.userLookup key
@@ -281,8 +290,8 @@ def mkEnv (answers : List ConvAnswer) : Env MemDict Lay where
   updatePhrase d key p f t := d.update key p f t
   removePhrase d key t := d.remove key t
   reopenFlush d := d
-  convert eng _ comp :=
-    match answers.find? (fun a => a.engine == engineNo eng && a.comp == compS comp) with
+  convert eng d comp :=
+    match answers.find? (fun a => a.engine == engineNo eng && a.comp == compS comp && a.fp == dictFp d) with
     | some a => .ok a.paths
     | none => .panic "conversion-not-recorded"
   estimate := edEstimate
